@@ -80,3 +80,16 @@ class Steps:
                     "no '%s' between '%s' and '%s'" % (x, a, b) if ok else "'%s' at %s lies between '%s' and '%s'" % (x, self.fn.file_line(bad), a, b),
                     where=self.fn.file_line(bad) if bad is not None else None)
         return ok
+
+    def precedes_only(self, a, b):
+        """sites of a can reach sites of b, and no site of b can reach a site of a (for steps
+        inside loops, where dominance is too strong)."""
+        A, B = self.steps.get(a, []), self.steps.get(b, [])
+        g = self.fn.cfg()
+        fwd = bool(A) and bool(B) and all(find_path(g, g.get(x, []), set(B), set()) for x in A)
+        back = any(find_path(g, g.get(y, []), set(A), set()) for y in B)
+        ok = fwd and not back
+        self.ctx.ob(self.rule, "sequence/%s/%s<%s" % (short(self.fn.path), a, b), ok,
+                    "every '%s' can be followed by '%s' (%s) and no '%s' is ever followed by '%s' (%s)" % (a, b, fwd, b, a, not back),
+                    where=self.fn.file_line((B or A or [0])[0]))
+        return ok
